@@ -234,6 +234,10 @@ def rule_formatchecker_owns(ctx, rid="R16.5"):
         v = n.ast.value
         fresh = (isinstance(v, ast.Call) and ((isinstance(v.func, ast.Attribute) and v.func.attr == "copy") or
                                               (isinstance(v.func, ast.Name) and v.func.id == "dict"))) or isinstance(v, (ast.DictComp, ast.Dict))
+        if not fresh:
+            # a local that only ever holds dicts created in this function (table = {}; for k in formats: table[k] = ...)
+            tags = eff.expr_tags(init, v)
+            fresh = bool(tags) and all(t[0] in ("F", "EL") for t in tags)
         if fresh:
             r.ok(site(init, n.ast), "self.checkers = %s (fresh dict)" % norm(v)[:60])
         else:
@@ -364,3 +368,10 @@ def run(ctx):
     # later registration cannot change what an existing validator resolves
     from .c18 import rule_registry_read_only
     rule_registry_read_only(ctx, "R16.10")
+    # R16.11: a class created with its own metaschema and a validator built with its own schema look ids up in a store where the
+    # document in hand wins over anything registered earlier under the same id
+    from .c15 import rule_seeding
+    rule_seeding(ctx, "R16.11")
+    # R16.12: creating a class adds one registry entry, under the class's own metaschema id as written, and touches no other
+    from .c20 import rule_registration
+    rule_registration(ctx, "R16.12")
